@@ -52,7 +52,7 @@ class FSub(FilterException):
     pass
 
 
-def body_catchfilter(backing, n, workers, sel, with_key, x0, x1, x2, x3, r0, r1, r2, r3):
+def body_catchfilter(backing, n, workers, backend, sel, with_key, x0, x1, x2, x3, r0, r1, r2, r3):
     """catch_filter_exception: exactly the examples whose evaluation raised a selected type are omitted, order kept,
     other types propagate at their position"""
     xs = rt.mk(n, [x0, x1, x2, x3])
@@ -80,7 +80,7 @@ def body_catchfilter(backing, n, workers, sel, with_key, x0, x1, x2, x3, r0, r1,
         if r == 3:
             raise foreign(x)
         return x
-    p = src.map(f).prefetch(workers, 2, catch_filter_exception=caught)
+    p = src.map(f).prefetch(workers, 2, backend=backend, catch_filter_exception=caught)
     exp, err = [], None
     for i, (x, r) in enumerate(zip(xs, rs)):
         if r in (1, 2):
@@ -124,15 +124,17 @@ def _conds(tier, seed):
     nmax = 3 if tier == 'quick' else 4
     for backing in ('list', 'dict'):
         for n in range(0, nmax + 1):
-            for workers in (1, 2):
+            for workers, backend in ((1, 't'), (2, 't'), (2, 'dill_mp')):
                 for sel in ('true', 'type', 'tuple'):
                     for wk in ((False, True) if backing == 'dict' else (False,)):
-                        out.append((backing, n, workers, sel, wk))
+                        if backend != 't' and (wk or n == 0 or (backing == 'dict' and tier == 'quick')):
+                            continue         # (process pool: value iteration; the replay starts a real pool)
+                        out.append((backing, n, workers, backend, sel, wk))
     return out
 
 
 FAMILIES = [
-    Family('catchfilter', body_catchfilter, ['backing', 'n', 'workers', 'sel', 'with_key'],
+    Family('catchfilter', body_catchfilter, ['backing', 'n', 'workers', 'backend', 'sel', 'with_key'],
            [(f'x{i}', 'int') for i in range(4)] + [(f'r{i}', 'int') for i in range(4)], _conds, timeout=dict(quick=60, thorough=300),
-           desc='prefetch(..., catch_filter_exception=...) on the single-thread and the pool path (serial contract stub)'),
+           desc='prefetch(..., catch_filter_exception=...) on the single-thread path, the thread pool and a process pool (serial contract stub; for process pools arguments, results and exceptions cross the boundary as pickled copies)'),
 ]
